@@ -222,4 +222,36 @@ def unmergeFs (s : Settings) (live : Live) (recorded : Recorded) : Live :=
   live.filter fun f =>
     !(recorded.any fun r => r.dir = f.dir ∧ r.base = f.base) || (keptAtUnmerge s live recorded).contains f
 
+/-! ## several operations of one process on one root
+
+A front end (`pmerge`) handles a list of packages in one process; between two operations anything may have happened to
+the root, in particular to `/etc/env.d` (an earlier package's env.d file merged, an `env-update`, the admin's editor).
+`gen_config_protect_filter` / `gen_collision_ignore_filter` are called anew by every trigger run and read env.d each
+time (`collapse_envd`): the only state an operation inherits from the earlier ones is the file system.  So every
+operation carries the settings env.d holds *when it runs*. -/
+
+inductive Op
+  /-- files written by somebody else (config edits, other tools) -/
+  | edit (files : List LiveFile)
+  /-- `ConfigProtectInstall` + `merge` of a package under the settings current at that time -/
+  | install (s : Settings) (pkg : ICSet)
+  /-- `ConfigProtectUninstall` + `unmerge` of a recorded package under the settings current at that time -/
+  | uninstall (s : Settings) (recorded : Recorded)
+
+/-- writing one file: whatever was at the location is replaced -/
+def writeFile (l : Live) (g : LiveFile) : Live := (l.filter fun f => ¬ (f.dir = g.dir ∧ f.base = g.base)) ++ [g]
+
+def applyOp (live : Live) : Op → Live
+  | .edit files => files.foldl writeFile live
+  | .install s pkg => mergeFs live (protectInstall s live pkg).1
+  | .uninstall s recorded => unmergeFs s live recorded
+
+/-- the live file system after a history of operations -/
+def runOps (live : Live) (ops : List Op) : Live := ops.foldl applyOp live
+
+/-- the live file system after each operation of a history -/
+def traceOps (live : Live) : List Op → List Live
+  | [] => []
+  | op :: ops => applyOp live op :: traceOps (applyOp live op) ops
+
 end Pkgcore.C21
